@@ -4,6 +4,7 @@ import (
 	"fmt"
 	"reflect"
 	"strings"
+	"unicode/utf8"
 
 	yaml "gopkg.in/yaml.v2"
 )
@@ -248,7 +249,8 @@ func (sv stringValue) Contains(substr Value) bool {
 
 func (sv stringValue) PropertyValue(iv Value) Value {
 	if iv.Interface() == sizeKey {
-		return ValueOf(len(reflect.ValueOf(sv.value).String()))
+		// characters, not bytes: the same number the size filter gives
+		return ValueOf(utf8.RuneCountInString(reflect.ValueOf(sv.value).String()))
 	}
 	return nilValue
 }
